@@ -49,7 +49,7 @@ LowerOf(x) == IF x = "C" THEN "c" ELSE IF x = "T" THEN "t" ELSE IF x = "W" THEN 
 UpperOf(x) == IF x = "c" THEN "C" ELSE IF x = "t" THEN "T" ELSE IF x = "w" THEN "W" ELSE IF x = "h" THEN "H"
               ELSE IF x = "s" THEN "S" ELSE IF x = "n" THEN "N" ELSE IF x = "a" THEN "A" ELSE x
 
-InitLabel == /\ mode = "label" /\ inp \in UNION { SeqsUpTo(sp[1], sp[2]) : sp \in LabelSpaces }
+InitLabel == /\ mode = "label" /\ \E sp \in LabelSpaces : \E n \in 0..sp[2] : inp \in [1..n -> sp[1]]
              /\ s = inp /\ pc = "strip_n" /\ res = <<"none", "">>
              /\ k = 0 /\ j = 0 /\ out = <<>> /\ exc = ""
 
@@ -119,7 +119,7 @@ UnitError(tok) == IF tok.kind = "unit" THEN (IF UnitKindOK(tok.v) THEN "" ELSE U
                   ELSE "IndexError"                                 \* a label or "0" has a single field
 CatOfToken(tok) == IF tok.kind = "label" THEN LabelKindCat[tok.v] ELSE "other"
 
-InitListing == /\ mode = "listing" /\ inp \in UNION { SeqsUpTo(McTemplates(sp), sp.maxlines) : sp \in ListingSpaces }
+InitListing == /\ mode = "listing" /\ \E sp \in ListingSpaces : \E n \in 0..sp.maxlines : inp \in [1..n -> McTemplates(sp)]
                /\ pc = "loop" /\ k = 0 /\ j = 0 /\ s = <<>> /\ res = <<"none", "">> /\ out = <<>> /\ exc = ""
 
 SkipLine == /\ pc = "loop" /\ k < Len(inp)
@@ -162,8 +162,8 @@ McPairTemplates(sp)  == { t \in PairTemplates : t.n1 \in sp.names /\ t.n2 \in sp
 McStackTemplates(sp) == { t \in StackTemplates(sp.maxstacklen) : \A i \in 1..Len(t) : t[i] \in sp.stackkinds }
 
 InitDssr == /\ mode = "dssr"
-            /\ inp \in UNION { [pairs : SeqsUpTo(McPairTemplates(sp), sp.maxpairs),
-                                stacks : SeqsUpTo(McStackTemplates(sp), sp.maxstacks)] : sp \in DssrSpaces }
+            /\ \E sp \in DssrSpaces : \E np \in 0..sp.maxpairs : \E ns \in 0..sp.maxstacks :
+                  inp \in [pairs : [1..np -> McPairTemplates(sp)], stacks : [1..ns -> McStackTemplates(sp)]]
             /\ pc = "pairs" /\ k = 0 /\ j = 0 /\ s = <<>> /\ res = <<"none", "">>
             /\ out = [bp |-> <<>>, st |-> <<>>] /\ exc = ""
 
